@@ -287,9 +287,7 @@ class RelativeFilterQuery(FilterQuery):
 
     def evaluate(self, context: FilterContext) -> object:
         """Evaluate the filter expression in the given _context_."""
-        if not isinstance(context.current, (list, dict)):
-            if self.query.empty():
-                return context.current
+        if not isinstance(context.current, (list, dict)) and not self.query.empty():
             return JSONPathNodeList()
 
         return JSONPathNodeList(self.query.find(context.current))
